@@ -212,6 +212,13 @@ def expected_triple(seed, asg):
     return (asg.A["id"], partial, local + ":" + partial)
 
 
+class HarnessFault(Exception):
+    """The check's own code failed (not mwlib): reported as machinery error, never as a violation."""
+
+
+VERIF_DIR = os.path.dirname(os.path.dirname(os.path.abspath(__file__)))
+
+
 def call(site, title, d, cache):
     k = (title, d)
     r = cache.get(k)
@@ -219,9 +226,19 @@ def call(site, title, d, cache):
         try:
             t = site.handler.splitname(title, defaultns=d)
             fq = site.handler.get_fqname(title, d)
-            r = (t[0], t[1], t[2]) if fq == t[2] else ("get_fqname differs", fq, t)
+            if not (isinstance(t, tuple) and len(t) == 3):
+                r = ("malformed result", repr(t)[:100], fq)
+            else:
+                r = (t[0], t[1], t[2]) if fq == t[2] else ("get_fqname differs", fq, t)
         except Exception as e:                                         # noqa: BLE001
-            r = ("exception", type(e).__name__, str(e)[:100])
+            import traceback
+            tb = traceback.extract_tb(e.__traceback__)
+            # behaviour of mwlib only when raised inside its code; an exception raised by this
+            # module's own statements (missing method, changed signature) is a fault of the check
+            if not tb or os.path.abspath(tb[-1].filename).startswith(VERIF_DIR + os.sep):
+                raise HarnessFault("calling NsHandler.splitname/get_fqname failed in the check's own code: %s: %s"
+                                   % (type(e).__name__, str(e)[:200])) from e
+            r = ("exception", type(e).__name__, "%s:%s %s" % (os.path.basename(tb[-1].filename), tb[-1].name, str(e)[:100]))
         cache[k] = r
     return r
 
@@ -551,6 +568,9 @@ def run(ctx):
                     else:
                         e[0] += cnt
                 names_seen.setdefault(sites[si].name, set()).update(tuple(x) for x in seen)
+        except HarnessFault as e:
+            pool.terminate()
+            ctx.machinery(str(e))
         finally:
             pool.close()
             pool.join()
@@ -597,7 +617,10 @@ def replay(ctx, path):
     with open(path) as f:
         rec = json.load(f)
     sites = load_sites(ctx.repo)
-    r = check_case(rec["replay"], sites)
+    try:
+        r = check_case(rec["replay"], sites)
+    except HarnessFault as e:
+        ctx.machinery(str(e))
     if r:
         ctx.violation(r[0], r[1], rec["replay"])
     else:
